@@ -48,7 +48,7 @@ THEOREMS = ["IwModel.C15.parsed_wf", "IwModel.C15.klidx_inv", "IwModel.C15.klidx
             "IwModel.C15.holds_bytesB", "IwModel.C15.progBB_ok",
             "IwModel.C15.missing_target_reported", "IwModel.C15.slash_root_witness", "IwModel.C15.dash_last_witness"]
 
-UNSPEC = {"addcreate-unspecified", "swap-overlap", "swap-unspecified", "increment-overflow", "remove-root", "malformed-op", "unknown-op"}
+UNSPEC = {"addcreate-unspecified", "swap-overlap", "swap-unspecified", "remove-root", "malformed-op", "unknown-op"}
 BIN = ("jbl", "json")
 
 
@@ -482,7 +482,7 @@ def run(ctx):
                        "distinct = distinct op line; every case applies at least one operation")
     ctx.assumptions += ["documents have unique member names (also ignoring ASCII case) and no NUL bytes in keys/strings (what the binary form can hold, C14)",
                         "doubles in documents are not integer-valued and are compared by bit pattern in model and oracle (the code compares their printed texts)",
-                        "`increment` never overflows int64 (signed overflow in the C code is undefined behaviour; UBSan would report it)",
+                        "`increment` leaving the int64 range is refused (fix 9dac2a8; before, signed overflow was undefined behaviour)",
                         "`swap` whose from and path overlap, or whose from is the whole document, is not generated (the one-line description of the extension does not determine a result)",
                         "a binary document whose root was replaced by a scalar is only observed by its type (patch mode) or as a value (byte-level ops); jbl holders are containers by construction",
                         "byte-level ops: input buffers are well-formed documents (malformed buffers are C17's); the oracle decodes the output with its own binn reader and compares values, bytes are compared with the Lean model only"]
